@@ -173,4 +173,283 @@ theorem cdbMake_rec_at (es : List (Bytes × Bytes)) (e : Ent) (he : e ∈ mkEnts
   rw [e'] at this
   exact this
 
+/-! ## the reader on a table that is laid out in the file -/
+
+/-- `scan` returning the record instead of its data -/
+def scanE (k : Bytes) (h : UInt32) : Tbl → Option Ent
+  | [] => none
+  | none :: _ => none
+  | some e :: r => if e.h = h ∧ e.key = k then some e else scanE k h r
+
+theorem scan_eq_scanE (k : Bytes) (h : UInt32) : ∀ t : Tbl, scan k h t = (scanE k h t).map (·.data)
+  | [] => rfl
+  | none :: _ => rfl
+  | some e :: r => by
+    simp only [scan, scanE]
+    split
+    · rfl
+    · exact scan_eq_scanE k h r
+
+theorem scanE_some (k : Bytes) (h : UInt32) (e : Ent) : ∀ t : Tbl, scanE k h t = some e → e.key = k ∧ some e ∈ t
+  | [], hs => by simp [scanE] at hs
+  | none :: _, hs => by simp [scanE] at hs
+  | some x :: r, hs => by
+    simp only [scanE] at hs
+    split at hs
+    · rename_i hc
+      simp only [Option.some.injEq] at hs
+      subst hs
+      exact ⟨hc.2, by simp⟩
+    · obtain ⟨h1, h2⟩ := scanE_some k h e r hs
+      exact ⟨h1, by simp [h2]⟩
+
+/-- table `t` is serialised in `f` at offset `p`, every record it points to is in `f` at its position, and all
+    offsets fit in 32 bits -/
+structure TblAt (f : Bytes) (p : Nat) (t : Tbl) : Prop where
+  slots : At f p (t.flatMap slotBytes)
+  recs : ∀ e, some e ∈ t → 2048 ≤ e.pos ∧ At f e.pos (recBytes e)
+  small : f.length < 4294967296
+
+theorem slot_at {f : Bytes} {p : Nat} {t : Tbl} (h : At f p (t.flatMap slotBytes)) (i : Nat) (hi : i < t.length) :
+    At f (p + 8 * i) (slotBytes t[i]) := by
+  have ht : t.flatMap slotBytes =
+      (t.take i).flatMap slotBytes ++ (slotBytes t[i] ++ (t.drop (i + 1)).flatMap slotBytes) := by
+    calc t.flatMap slotBytes = (t.take i ++ t.drop i).flatMap slotBytes := by rw [List.take_append_drop]
+      _ = _ := by rw [List.drop_eq_getElem_cons hi, List.flatMap_append, List.flatMap_cons]
+  rw [ht] at h
+  have := h.sub_right.sub_left
+  rw [flatMap_slotBytes_length, List.length_take, Nat.min_eq_left (Nat.le_of_lt hi)] at this
+  exact this
+
+theorem slot_read_none {f : Bytes} {p : Nat} {t : Tbl} (hT : TblAt f p t) (i : Nat) (hi : i < t.length)
+    (hx : t[i] = none) : read8 f ((p + 8 * i) % 4294967296) = some (0, 0) := by
+  have hat := slot_at hT.slots i hi
+  have hle := hat.le
+  rw [slotBytes_length] at hle
+  have hs := hT.small
+  rw [Nat.mod_eq_of_lt (by omega)]
+  rw [hx] at hat
+  exact read8_at hat
+
+theorem rec_read {f : Bytes} {p : Nat} {t : Tbl} (hT : TblAt f p t) (e : Ent) (he : some e ∈ t) :
+    read8 f e.pos = some (e.key.length, e.data.length) ∧ At f (e.pos + 8) e.key ∧
+    At f (e.pos + 8 + e.key.length) e.data ∧ e.pos ≠ 0 ∧ e.pos < 4294967296 := by
+  obtain ⟨h1, h2⟩ := hT.recs e he
+  have hle := h2.le
+  rw [recBytes_length] at hle
+  have hs := hT.small
+  unfold recBytes at h2
+  refine ⟨?_, ?_, ?_, by omega, by omega⟩
+  · rw [read8_at h2.sub_left.sub_left, Nat.mod_eq_of_lt (by omega), Nat.mod_eq_of_lt (by omega)]
+  · have := h2.sub_left.sub_right
+    simpa [pack_length] using this
+  · have := h2.sub_right
+    simp only [List.length_append, pack_length] at this
+    have e' : e.pos + (4 + 4 + e.key.length) = e.pos + 8 + e.key.length := by omega
+    rw [e'] at this
+    exact this
+
+theorem slot_read_some {f : Bytes} {p : Nat} {t : Tbl} (hT : TblAt f p t) (i : Nat) (hi : i < t.length) (e : Ent)
+    (hx : t[i] = some e) : read8 f ((p + 8 * i) % 4294967296) = some (e.h.toNat, e.pos) := by
+  have hat := slot_at hT.slots i hi
+  have hle := hat.le
+  rw [slotBytes_length] at hle
+  have hs := hT.small
+  rw [Nat.mod_eq_of_lt (by omega)]
+  rw [hx] at hat
+  have hmem : some e ∈ t := by rw [← hx]; exact List.getElem_mem hi
+  obtain ⟨_, _, _, _, hp⟩ := rec_read hT e hmem
+  have hh : e.h.toNat < 4294967296 := e.h.toNat_lt
+  rw [read8_at hat, Nat.mod_eq_of_lt hh, Nat.mod_eq_of_lt hp]
+
+/-- `match()`: comparing the key with the `key.length` bytes of the file at `off`, in chunks of 32 -/
+theorem matchAt_spec (f : Bytes) : ∀ (fuel off : Nat) (key key' : Bytes), At f off key' → key'.length = key.length →
+    key.length < fuel → matchAt f fuel off key = if key' = key then .yes else .no
+  | 0, _, _, _, _, _, h => by omega
+  | fuel + 1, off, key, key', hat, hlen, hfuel => by
+    rw [matchAt]
+    by_cases hk : key.isEmpty = true
+    · have hk' : key = [] := List.isEmpty_iff.mp hk
+      subst hk'
+      have : key' = [] := List.length_eq_zero_iff.mp (by simpa using hlen)
+      simp [this]
+    · rw [if_neg hk]
+      have hne : key ≠ [] := fun e => hk (by rw [e]; rfl)
+      have hpos : 0 < key.length := List.length_pos_iff.mpr hne
+      obtain ⟨post, hd⟩ := hat.drop
+      have hn : min 32 key.length ≤ key'.length := by omega
+      have hc : (f.drop off).take (min 32 key.length) = key'.take (min 32 key.length) := by
+        rw [hd, List.take_append_of_le_length hn]
+      simp only [hc]
+      have hcl : (key'.take (min 32 key.length)).length = min 32 key.length := by
+        rw [List.length_take]; omega
+      rw [if_pos hcl]
+      have hat2 : At f (off + min 32 key.length) (key'.drop (min 32 key.length)) := by
+        have h2 := hat
+        rw [← List.take_append_drop (min 32 key.length) key'] at h2
+        have := h2.sub_right
+        rw [hcl] at this
+        exact this
+      by_cases he : key'.take (min 32 key.length) = key.take (min 32 key.length)
+      · have : (key'.take (min 32 key.length) == key.take (min 32 key.length)) = true := by simp [he]
+        rw [if_pos this]
+        rw [matchAt_spec f fuel _ (key.drop (min 32 key.length)) (key'.drop (min 32 key.length)) hat2
+          (by simp [hlen]) (by simp only [List.length_drop]; omega)]
+        by_cases hkk : key' = key
+        · simp [hkk]
+        · have : key'.drop (min 32 key.length) ≠ key.drop (min 32 key.length) := by
+            intro hdrop
+            apply hkk
+            calc key' = key'.take (min 32 key.length) ++ key'.drop (min 32 key.length) := (List.take_append_drop _ _).symm
+              _ = key.take (min 32 key.length) ++ key.drop (min 32 key.length) := by rw [he, hdrop]
+              _ = key := List.take_append_drop _ _
+          simp [hkk, this]
+      · have : (key'.take (min 32 key.length) == key.take (min 32 key.length)) = false := by simp [he]
+        rw [this]
+        have hkk : key' ≠ key := fun e => he (by rw [e])
+        simp [hkk]
+
+/-! ## probe order -/
+
+theorem rot_next {α} (t : List α) (s : Nat) (hs : s < t.length) :
+    rot t s = t[s] :: (t.drop (s + 1) ++ t.take s) ∧
+    rot t (if s + 1 = t.length then 0 else s + 1) = (t.drop (s + 1) ++ t.take s) ++ [t[s]] := by
+  constructor
+  · unfold rot
+    rw [List.drop_eq_getElem_cons hs]; rfl
+  · by_cases h : s + 1 = t.length
+    · rw [if_pos h]
+      unfold rot
+      rw [List.drop_of_length_le (Nat.le_of_eq h.symm), List.nil_append, ← List.take_succ_eq_append_getElem hs,
+        List.take_of_length_le (Nat.le_of_eq h.symm)]
+      simp
+    · rw [if_neg h]
+      unfold rot
+      rw [List.take_succ_eq_append_getElem hs, List.append_assoc]
+
+/-- cdb_seek's slot walk on the bytes = `scanE` on the structured table, in probe order -/
+theorem probe_scan (f k : Bytes) (h : UInt32) (p : Nat) (t : Tbl) (hT : TblAt f p t) :
+    ∀ (fuel h2 : Nat), h2 < t.length → fuel ≤ t.length →
+      probe f k h.toNat p t.length fuel h2 =
+        match scanE k h ((rot t h2).take fuel) with
+        | some e => .found (e.pos + 8 + k.length) e.data.length
+        | none => .notFound
+  | 0, _, _, _ => by simp [probe, scanE]
+  | fuel + 1, h2, hh2, hfuel => by
+    obtain ⟨hr1, hr2⟩ := rot_next t h2 hh2
+    have ih := probe_scan f k h p t hT fuel (if h2 + 1 = t.length then 0 else h2 + 1)
+      (by split <;> omega) (by omega)
+    rw [hr2] at ih
+    have hrl : (t.drop (h2 + 1) ++ t.take h2).length = t.length - 1 := by
+      simp only [List.length_append, List.length_drop, List.length_take]; omega
+    rw [List.take_append_of_le_length (by omega)] at ih
+    rw [hr1, List.take_succ_cons]
+    rw [probe]
+    cases hx : t[h2] with
+    | none =>
+      rw [slot_read_none hT h2 hh2 hx]
+      simp [scanE]
+    | some e =>
+      rw [slot_read_some hT h2 hh2 e hx]
+      have hmem : some e ∈ t := by rw [← hx]; exact List.getElem_mem hh2
+      obtain ⟨hrd, hkey, _, hp0, _⟩ := rec_read hT e hmem
+      simp only [hp0, if_false]
+      by_cases hh : e.h = h
+      · have : e.h.toNat = h.toNat := by rw [hh]
+        rw [if_pos this, hrd]
+        simp only []
+        by_cases hkl : e.key.length = k.length
+        · rw [if_pos hkl, matchAt_spec f _ _ k e.key hkey hkl (Nat.lt_succ_self _)]
+          by_cases hk : e.key = k
+          · simp [scanE, hh, hk]
+          · simp only [hk, if_false, scanE, and_false]
+            exact ih
+        · rw [if_neg hkl]
+          have hk : e.key ≠ k := fun e' => hkl (by rw [e'])
+          simp only [scanE, hk, and_false, if_false]
+          exact ih
+      · have : e.h.toNat ≠ h.toNat := fun e' => hh (UInt32.toNat_inj.mp e')
+        rw [if_neg this]
+        simp only [scanE, hh, false_and, if_false]
+        exact ih
+
+/-! ## the whole file -/
+
+theorem buildTable_mem (l : List Ent) (hh : ∀ e ∈ l, e.h = hashKey e.key) (x : Ent) (hx : some x ∈ buildTable l) :
+    x ∈ l := by
+  have := inv_foldl [] (2 * l.length) l [] _ (inv_init [] (2 * l.length)) (by simp; omega) hh
+  simp only [List.nil_append] at this
+  exact this.hmem x hx
+
+/-- in a file below 4 GiB every one of the 256 tables is laid out as `TblAt` requires -/
+theorem cdbMake_tblAt (es : List (Bytes × Bytes)) (hsz : (cdbMake es).length < 4294967296) (j : Nat) (hj : j < 256) :
+    ∃ p, At (cdbMake es) (8 * j) (pack p ++ pack (tableOf (mkEnts es 2048) j).length) ∧
+         TblAt (cdbMake es) p (tableOf (mkEnts es 2048) j) := by
+  obtain ⟨p, h1, h2⟩ := cdbMake_table_at es j hj
+  refine ⟨p, h1, h2, ?_, hsz⟩
+  intro e he
+  apply cdbMake_rec_at
+  have hh := mkEnts_hash es 2048
+  have := buildTable_mem _ (fun e he => hh e (List.mem_filter.mp he).1) e he
+  exact (List.mem_filter.mp this).1
+
+/-- the structured lookup, returning the record -/
+def findEntE (ents : List Ent) (k : Bytes) : Option Ent :=
+  let h := hashKey k
+  let t := tableOf ents (bucket h)
+  if t.length = 0 then none else scanE k h (rot t (home h t.length))
+
+theorem findEnts_eq_findEntE (ents : List Ent) (k : Bytes) : findEnts ents k = (findEntE ents k).map (·.data) := by
+  unfold findEnts findEntE
+  dsimp only
+  split
+  · rfl
+  · exact scan_eq_scanE _ _ _
+
+/-- cdb_seek on the bytes written by cdbmake = the structured lookup -/
+theorem cdbSeek_cdbMake (es : List (Bytes × Bytes)) (k : Bytes) (hsz : (cdbMake es).length < 4294967296) :
+    cdbSeek (cdbMake es) k =
+      match findEntE (mkEnts es 2048) k with
+      | some e => .found (e.pos + 8 + k.length) e.data.length
+      | none => .notFound := by
+  obtain ⟨p, hhd, hT⟩ := cdbMake_tblAt es hsz (bucket (hashKey k)) (Nat.mod_lt _ (by omega))
+  have hle := hT.slots.le
+  rw [flatMap_slotBytes_length] at hle
+  unfold cdbSeek findEntE
+  dsimp only
+  have hb : (hashKey k).toNat % 256 = bucket (hashKey k) := rfl
+  rw [hb, read8_at hhd, Nat.mod_eq_of_lt (by omega), Nat.mod_eq_of_lt (by omega)]
+  dsimp only
+  by_cases h0 : (tableOf (mkEnts es 2048) (bucket (hashKey k))).length = 0
+  · rw [if_pos h0, if_pos h0]
+  · rw [if_neg h0, if_neg h0]
+    have hhome : (hashKey k).toNat / 256 % (tableOf (mkEnts es 2048) (bucket (hashKey k))).length =
+        home (hashKey k) (tableOf (mkEnts es 2048) (bucket (hashKey k))).length := rfl
+    rw [hhome, probe_scan (cdbMake es) k (hashKey k) p _ hT _ _ (home_lt _ (Nat.pos_of_ne_zero h0)) (Nat.le_refl _),
+      List.take_of_length_le (Nat.le_of_eq (length_rot _ _))]
+
+/-- cdb_seek + cdb_bread of the data on the bytes written by cdbmake = the structured lookup -/
+theorem cdbGet_cdbMake (es : List (Bytes × Bytes)) (k : Bytes) (hsz : (cdbMake es).length < 4294967296) :
+    cdbGet (cdbMake es) k =
+      match findStruct es k with
+      | some d => .found d
+      | none => .notFound := by
+  unfold cdbGet findStruct
+  rw [cdbSeek_cdbMake es k hsz, findEnts_eq_findEntE]
+  cases hfe : findEntE (mkEnts es 2048) k with
+  | none => rfl
+  | some e =>
+    dsimp only [Option.map]
+    obtain ⟨p, _, hT⟩ := cdbMake_tblAt es hsz (bucket (hashKey k)) (Nat.mod_lt _ (by omega))
+    have hs : e.key = k ∧ some e ∈ tableOf (mkEnts es 2048) (bucket (hashKey k)) := by
+      unfold findEntE at hfe
+      dsimp only at hfe
+      split at hfe
+      · cases hfe
+      · obtain ⟨h1, h2⟩ := scanE_some _ _ _ _ hfe
+        exact ⟨h1, mem_rot h2⟩
+    obtain ⟨_, _, hdat, _, _⟩ := rec_read hT e hs.2
+    rw [hs.1] at hdat
+    rw [hdat.take, if_pos rfl]
+
 end Nq.Lemmas.Users
